@@ -83,7 +83,7 @@ pub fn run(cfg: &Cfg, rep: &mut Report) {
         };
 
         for _ in 0..nmsg {
-            let k = 1 + rng.usize(8);
+            let k = if rng.chance(1, 600) && !ctx.cfg.tiny { 200 + rng.usize(100) } else { 1 + rng.usize(8) };
             let fault = rng.usize(7); // 0 none, 1 handler error, 2 too few, 3 too many, 4 undefined header, 5 syntax, 6 formatter capacity
             let fi = rng.usize(k);
             let mut msg: Vec<u8> = Vec::new();
